@@ -121,6 +121,10 @@ impl Prop for C16 {
                                 Body::TermThenReject => "term".into(),
                                 Body::RejectAndMore => "reject-and-another-action".into(),
                                 Body::FromThenReject => "from".into(),
+                                Body::RejectPlus { inside_then, shape, .. } => format!(
+                                    "reject-plus:{}:shape{shape}",
+                                    if *inside_then { "inside-then" } else { "statement-level" }
+                                ),
                                 _ => "?".into(),
                             }
                         ),
